@@ -64,6 +64,11 @@ func init() {
 				if r.Chance(0.5) {
 					cc = genCharCfg(r, charOpt{small: true, budget: 4000, maxLen: 6, maxReq: 3, noEmptied: true})
 				}
+				if r.Chance(0.015) {
+					// very long passwords (bulk paths, block boundaries)
+					cc = CharCfg{Length: pick(r, []int{511, 512, 513, 4096, 16383, 16384, 16385, 16584, 20000}), Allow: pick(r, []uint32{4, 7, 15}), Exclude: pick(r, []uint32{0, 16})}
+					s.AllReads = false
+				}
 				s.Char = &cc
 			} else {
 				w := genWLCfg(r, wlOpt{list: listOpt{min: 1, max: 8, twins: 0.2, precap: 0.1, caseless: 0.1, dups: 0.1}, maxLen: 5})
@@ -139,6 +144,20 @@ func runC09(c *Ctx, si interface{}) {
 	R := len(pilot.Tape.Reads)
 	used := wordsOf(pilot.Tape.Served)
 	c.Count("pilot_reads", int64(R))
+	// every announced choice among two or more alternatives needs at least one fresh raw word
+	announced := 0
+	for _, d := range pilot.Tape.Draws {
+		if d.N >= 2 {
+			announced++
+		}
+	}
+	if len(pilot.Tape.Served)/4 < announced {
+		c.Violate("choices-without-source-bytes", "", "%s: %d bounded draws were made but only %d raw words (%d bytes) were read from the source: some choices do not come from source bytes", desc, announced, len(pilot.Tape.Served)/4, len(pilot.Tape.Served))
+		return
+	}
+	if R > 2000 {
+		c.Probe("generation_with_more_than_2000_reads", 1)
+	}
 	if R == 0 {
 		if outputs.Cmp(big.NewInt(1)) > 0 {
 			c.Violate("no-source-read", "", "%s generated %q without reading the random source although %s outputs are possible", desc, pilot.Pw.S, outputs)
@@ -242,6 +261,9 @@ func runC09(c *Ctx, si interface{}) {
 		for k := 0; k < R; k++ {
 			if s.Only == nil && !s.AllReads && k != 0 && k != R-1 && r.Intn(3) != 0 {
 				continue
+			}
+			if s.Only == nil && R > 400 && k != 0 && k != R-1 && r.Intn(R) >= 8 {
+				continue // very long generations: first, last and a seeded two dozen read positions
 			}
 			kinds := append([]string{}, errKinds...)
 			kinds = append(kinds, "SHORT1", "SHORT3", "ZERO2")
